@@ -4,6 +4,7 @@ package main
 
 import (
 	"fmt"
+	"go/ast"
 	"go/constant"
 	"go/types"
 	"strconv"
@@ -13,28 +14,30 @@ import (
 )
 
 type specVal struct {
-	t    string
-	typ  types.Type
-	st   *State // state in which slice contents are read (old() propagates)
+	t     string
+	typ   types.Type
+	st    *State // state in which slice contents are read (old() propagates)
 	isNil bool
 }
 
 type Env struct {
-	v       *FnVerifier
-	fr      *Frame
-	st      *State
-	old     *State
-	li      *loopInfo
-	bound   map[string]specVal
-	lets    map[string]*Node
-	results []Val
-	resT    []types.Type
-	resName []string
-	extra   *[]string
-	pkg     *types.Package
-	args    []specVal // arg0.. for site assertions
-	depth   int
+	v        *FnVerifier
+	fr       *Frame
+	st       *State
+	old      *State
+	li       *loopInfo
+	bound    map[string]specVal
+	lets     map[string]*Node
+	results  []Val
+	resT     []types.Type
+	resName  []string
+	extra    *[]string
+	pkg      *types.Package
+	args     []specVal // arg0.. for site assertions
+	depth    int
 	retBlock *ssa.BasicBlock // for ensures: loop names of dominating loop headers are visible
+	inOld    bool
+	pats     *map[string][]string // quantified int variable (SMT name) -> index-term patterns found in the body
 }
 
 // tryEval evaluates n, reporting failure instead of panicking.
@@ -242,6 +245,11 @@ func (e *Env) eval(n *Node) specVal {
 		switch u := x.typ.Underlying().(type) {
 		case *types.Slice:
 			k := v.elemKey(u.Elem())
+			if e.pats != nil {
+				if _, isQ := (*e.pats)[i.t]; isQ {
+					(*e.pats)[i.t] = append((*e.pats)[i.t], "(ix (s.off "+x.t+") "+i.t+")")
+				}
+			}
 			return specVal{t: sel(sel(v.heap(st, k), "(s.arr "+x.t+")"), "(ix (s.off "+x.t+") "+i.t+")"), typ: u.Elem(), st: st}
 		case *types.Map:
 			_, vk := v.mapKeys(u)
@@ -351,6 +359,16 @@ func (e *Env) evalIdent(n *Node) specVal {
 			return specVal{t: e.results[i].T, typ: e.resT[i], st: e.st}
 		}
 	}
+	if e.inOld && e.fr != nil {
+		// old(x): parameters denote their entry values
+		for _, p := range e.fr.fn.Params {
+			if p.Name() == name {
+				if val := e.fr.vals[p]; val.Loc == nil {
+					return specVal{t: val.T, typ: p.Type(), st: e.st}
+				}
+			}
+		}
+	}
 	if e.li != nil {
 		if x, ok := e.li.names[name]; ok {
 			return specVal{t: e.fr.pureTerm(e.st, x, e.li), typ: x.Type(), st: e.st}
@@ -372,6 +390,17 @@ func (e *Env) evalIdent(n *Node) specVal {
 						return specVal{t: val.T, typ: x.Type(), st: e.st}
 					}
 				}
+			}
+		}
+	}
+	if e.fr != nil && !e.inOld {
+		at := e.retBlock
+		if e.li != nil {
+			at = e.li.header
+		}
+		if at != nil {
+			if sv, ok := e.sourceVar(name, at); ok {
+				return sv
 			}
 		}
 	}
@@ -463,10 +492,32 @@ func (e *Env) quant(n *Node, q string) specVal {
 		v.smt.n++
 		kn := fmt.Sprintf("%s!q%d", args[0].Name, v.smt.n)
 		lo, hi := e.eval(args[1]), e.eval(args[2])
-		body := e.bind(args[0].Name, specVal{t: kn, typ: tInt}).eval(args[3])
+		be := e.bind(args[0].Name, specVal{t: kn, typ: tInt})
+		if e.pats == nil {
+			m := map[string][]string{}
+			be.pats = &m
+		}
+		(*be.pats)[kn] = []string{}
+		body := be.eval(args[3])
 		rng := and("(<= "+lo.t+" "+kn+")", "(< "+kn+" "+hi.t+")")
+		pat := ""
+		seen := map[string]bool{}
+		for _, p := range (*be.pats)[kn] {
+			// a pattern must not mention other bound variables of enclosing quantifiers that are not yet closed: fine in SMT-LIB (they are free here)
+			if !seen[p] {
+				seen[p] = true
+				pat += " :pattern (" + p + ")"
+			}
+		}
+		delete(*be.pats, kn)
 		if q == "forall" {
+			if pat != "" {
+				return specVal{t: fmt.Sprintf("(forall ((%s Int)) (! (=> %s %s)%s))", kn, rng, body.t, pat), typ: tBool}
+			}
 			return specVal{t: fmt.Sprintf("(forall ((%s Int)) (=> %s %s))", kn, rng, body.t), typ: tBool}
+		}
+		if pat != "" {
+			return specVal{t: fmt.Sprintf("(exists ((%s Int)) (! (and %s %s)%s))", kn, rng, body.t, pat), typ: tBool}
 		}
 		return specVal{t: fmt.Sprintf("(exists ((%s Int)) (and %s %s))", kn, rng, body.t), typ: tBool}
 	}
@@ -504,7 +555,9 @@ func (e *Env) evalCall(n *Node) specVal {
 			if e.old == nil {
 				e.fail("old() not available here")
 			}
-			sv := e.with(e.old).eval(args[0])
+			oe := e.with(e.old)
+			oe.inOld = true
+			sv := oe.eval(args[0])
 			if sv.st == nil || sv.st == e.st {
 				sv.st = e.old
 			}
@@ -599,6 +652,42 @@ func (e *Env) evalCall(n *Node) specVal {
 		case "max":
 			a, b := e.eval(args[0]), e.eval(args[1])
 			return specVal{t: ite("(>= "+a.t+" "+b.t+")", a.t, b.t), typ: a.typ}
+		case "arr":
+			x := e.eval(args[0])
+			return specVal{t: "(s.arr " + x.t + ")", typ: tInt}
+		case "fresharr":
+			x := e.eval(args[0])
+			return specVal{t: "(>= (s.arr " + x.t + ") " + v.alloc(e.old) + ")", typ: tBool}
+		case "oldrowsExcept":
+			// oldrowsExcept(s, a1, a2...): element rows allocated before the call, other than the listed array ids, are unchanged
+			x := e.eval(args[0])
+			sl, ok := x.typ.Underlying().(*types.Slice)
+			if !ok {
+				e.fail("oldrowsExcept() needs a slice-typed expression")
+			}
+			k := v.elemKey(sl.Elem())
+			v.smt.n++
+			q := fmt.Sprintf("a!q%d", v.smt.n)
+			conds := []string{"(< " + q + " " + v.alloc(e.old) + ")"}
+			for _, a := range args[1:] {
+				conds = append(conds, "(not (= "+q+" "+e.eval(a).t+"))")
+			}
+			return specVal{t: fmt.Sprintf("(forall ((%s Int)) (! (=> %s (= (select %s %s) (select %s %s))) :pattern ((select %s %s))))",
+				q, and(conds...), v.heap(e.st, k), q, v.heap(e.old, k), q, v.heap(e.st, k), q), typ: tBool}
+		case "oldrows":
+			// oldrows(s): every element row (of s's element type) allocated before the call is unchanged
+			x := e.eval(args[0])
+			sl, ok := x.typ.Underlying().(*types.Slice)
+			if !ok {
+				e.fail("oldrows() needs a slice-typed expression")
+			}
+			k := v.elemKey(sl.Elem())
+			v.smt.n++
+			q := fmt.Sprintf("a!q%d", v.smt.n)
+			return specVal{t: fmt.Sprintf("(forall ((%s Int)) (! (=> (< %s %s) (= (select %s %s) (select %s %s))) :pattern ((select %s %s))))",
+				q, q, v.alloc(e.old), v.heap(e.st, k), q, v.heap(e.old, k), q, v.heap(e.st, k), q), typ: tBool}
+		case "clock":
+			return specVal{t: v.heap(e.st, v.ghostKey("clock", "Int")), typ: types.Typ[types.Int64]}
 		case "fresh":
 			// fresh(p): p was allocated during this call
 			x := e.eval(args[0])
@@ -677,7 +766,7 @@ func (e *Env) seqEq(a, b specVal) string {
 	ea := sel(sel(v.heap(sa, k), "(s.arr "+a.t+")"), "(ix (s.off "+a.t+") "+q+")")
 	eb := sel(sel(v.heap(sb, k), "(s.arr "+b.t+")"), "(ix (s.off "+b.t+") "+q+")")
 	return and(eq("(s.len "+a.t+")", "(s.len "+b.t+")"),
-		fmt.Sprintf("(forall ((%s Int)) (=> (and (<= 0 %s) (< %s (s.len %s))) (= %s %s)))", q, q, q, a.t, ea, eb))
+		fmt.Sprintf("(forall ((%s Int)) (! (=> (and (<= 0 %s) (< %s (s.len %s))) (= %s %s)) :pattern ((ix (s.off %s) %s)) :pattern ((ix (s.off %s) %s))))", q, q, q, a.t, ea, eb, a.t, q, b.t, q))
 }
 
 // specUF: uninterpreted functions usable in specs and shared with the ext models.
@@ -702,6 +791,58 @@ var specUFs = map[string]specUF{
 	"TxHash":        {"uf!TxHash", extType(pkgBitcoin, "Hash32")},
 	"OutpointHash":  {"uf!OutpointHash", extType(pkgBitcoin, "Hash32")},
 	"UnixNano":      {"uf!UnixNano", basicType(types.Int64)},
+	"TxHashOf":      {"uf!TxHashOf", extType(pkgBitcoin, "Hash32")},
 }
 
 var _ = ssa.NaiveForm
+
+// sourceVar: the value of source variable `name` at the entry of block `at`, taken from the
+// latest DebugRef in a block that strictly dominates `at` (variables re-assigned inside a loop
+// have a phi at the header and are resolved through loopInfo.names instead).
+func (e *Env) sourceVar(name string, at *ssa.BasicBlock) (specVal, bool) {
+	var best *ssa.DebugRef
+	bestDepth, bestIdx := -1, -1
+	for _, b := range e.fr.fn.Blocks {
+		if b == at || !b.Dominates(at) {
+			continue
+		}
+		depth := 0
+		for d := b; d != nil; d = d.Idom() {
+			depth++
+		}
+		for i, in := range b.Instrs {
+			dr, ok := in.(*ssa.DebugRef)
+			if !ok {
+				continue
+			}
+			id, ok := dr.Expr.(*ast.Ident)
+			if !ok || id.Name != name {
+				continue
+			}
+			if tv, isVar := dr.Object().(*types.Var); !isVar || tv.IsField() {
+				continue
+			}
+			if depth > bestDepth || depth == bestDepth && i > bestIdx {
+				best, bestDepth, bestIdx = dr, depth, i
+			}
+		}
+	}
+	if best == nil {
+		return specVal{}, false
+	}
+	val, have := e.fr.vals[best.X]
+	if !have {
+		if c, isConst := best.X.(*ssa.Const); isConst {
+			return specVal{t: e.v.constTerm(c), typ: c.Type(), st: e.st}, true
+		}
+		return specVal{}, false
+	}
+	if best.IsAddr {
+		t := deref(best.X.Type())
+		return specVal{t: e.v.loadPtr(e.st, val, t), typ: t, st: e.st}, true
+	}
+	if val.Loc != nil {
+		return specVal{}, false
+	}
+	return specVal{t: val.T, typ: best.X.Type(), st: e.st}, true
+}
